@@ -546,7 +546,9 @@ pub fn gen_linear(rng: &mut Rng, max_points: usize, max_cons: usize) -> System {
 
 /// Re-assign priorities from a small set (with gaps and duplicates), keeping the request order.
 pub fn with_priorities(rng: &mut Rng, mut sys: System) -> System {
-    let sets: [&[u32]; 5] = [&[0, 1], &[0, 1, 2], &[0, 5, 4_000_000_000], &[3, 7], &[1, 1, 2]];
+    let sets: [&[u32]; 8] = [&[0, 1], &[0, 1, 2], &[0, 5, 4_000_000_000], &[3, 7], &[1, 1, 2],
+        // many levels, gaps, the extreme values of the type
+        &[0, 1, 2, 3, 4, 5, 6, 7], &[2, 4, 6, 8, 10, 12, 14, 16, 18, 20], &[u32::MAX, 0, 7, u32::MAX - 1]];
     let set = *rng.pick(&sets);
     sys.reqs = sys
         .reqs
